@@ -234,6 +234,26 @@ PROPS["C17"] = dict(
     on_proof_failure=[monitor_search("ws-sys")],
 )
 
+PROPS["C19"] = dict(
+    suites=[dict(name="watchdog", harness="watchdog", imports=["WatchdogCheck"], case_type="wd_case",
+                 check="wd_code", monitor="wd_code", count_quick=46, count_thorough=184, nontrivial_bits=3, shrink=False,
+                 crash_is_violation=True)],
+    rule="watchdog: 46 fault scenarios, each in its own child process calling the real run(): udp (mio and io_uring) socket worker returning / "
+         "panicking at its first loop pass (start-up) or its 41st with 1 or 2 socket workers; udp cleaning and statistics workers returning / "
+         "panicking at pass 1 or 3 (1-second intervals); the signal worker of each of the three trackers returning / panicking on SIGUSR1; ws "
+         "socket worker returning / panicking at its 1st or 4th accepted connection with 1x1 or 2x2 workers; panics inside detached async "
+         "tasks of the glommio workers (http accept task, http connection task, http swarm request handler, ws connection task, ws swarm "
+         "request handler) at the 1st or 3rd pass with 1x1 and 2x3 workers; the child drives datagrams / TCP / WebSocket traffic until the "
+         "hook reports that the fault fired, then waits up to 14 s for run() to return; checked: run() returned, with an Err, within scan "
+         "period + 2.5 s of the fault; non-trivial = the fault fired",
+    modelled="the scan loop at the end of run() in crates/{udp,http,ws}/src/lib.rs (Watchdog.v) with period and join() arms regenerated from "
+             "the sources; that a panic inside a detached glommio task unwinds through LocalExecutor::run into the worker thread is NOT "
+             "modelled - it is observed by the suite",
+    assumptions=["std::thread::JoinHandle::is_finished becomes true once the closure returned or unwound", "scan duration and thread scheduling "
+                 "are granted 2.5 s of slack", "a returning (not panicking) async sub-task of a glommio worker is not a worker failure",
+                 "the prometheus endpoint thread is not exercised (feature off in the harness build)"],
+)
+
 PROPS["C05"] = dict(
     suites=[dict(name="validator", harness="validator", imports=["Validator"],
                  case_type="N * list (string * N) * list (N * string * string * bool)",
@@ -484,6 +504,15 @@ LEVELS["C17"] = dict(
     design_ref="DESIGN.md §7 C17", technique="Coq invariant proofs over the routing model + in-Coq correspondence with running trackers (hook H8)",
     note="Trusted: Coq kernel, models, harness, hook H8. Partial: interleavings of the request / control / reply channel meshes are "
          "runtime and outside the sequential model.")
+
+LEVELS["C19"] = dict(
+    text="Partial. Theorems about the watchdog model for every list of workers, every ending (return Ok, return Err, panic) and every moment "
+         "(start-up or later): run() returns an Err at a scan less than one period after the first worker ended, names a worker that "
+         "really ended, and never returns while all run; the periods regenerated from the three lib.rs are <= 10 s and all three "
+         "join() arms return Err. Tied to the code by injecting faults (hook H7) into every worker kind of the three running trackers.",
+    design_ref="DESIGN.md §7 C19", technique="Coq proof over the watchdog loop model + translator facts + fault-injection correspondence with the real run()",
+    note="Trusted: Coq kernel, model, translator, harness, hooks H7. Partial: propagation of panics from detached glommio tasks to the "
+         "worker thread and JoinHandle::is_finished are runtime (observed, not proved); prometheus worker not exercised.")
 
 LEVELS["C05"] = dict(
     text="Theorems for every keyed-hash function, every time, age (0..2^32-1) and address: exact acceptance window; the accepted strings are "
